@@ -1,24 +1,29 @@
 #!/bin/bash
 # seedrerun.sh <seed-name> [check-ID] [tier]: apply a recorded seeded change to /repo, run our check, restore /repo, append the outcome to meta.json
+# SEED_REPO=<dir> runs against another checkout of the repository (the go.mod replace of this /verif copy must point there: seedmatrix.sh
+# does that in a `vp run --with-repo` snapshot); SEED_NOTE overrides the note recorded with the outcome.
 set -u
 NAME=$1; ID=${2:-${NAME%%-*}}; TIER=${3:-quick}
 export GOFLAGS=-mod=mod GOPROXY=off
-D=/verif/seeded/$NAME
-git -C /repo status --short | grep -q . && { echo "/repo not clean"; exit 5; }
-git -C /repo apply "$D/patch.diff" || exit 5
-rm -rf /verif/replays/$ID
+HERE="$(cd "$(dirname "${BASH_SOURCE[0]}")" && pwd)"
+REPO=${SEED_REPO:-/repo}
+D=$HERE/seeded/$NAME
+git -C $REPO status --short | grep -q . && { echo "$REPO not clean"; exit 5; }
+git -C $REPO apply "$D/patch.diff" || exit 5
+rm -rf $HERE/replays/$ID
 mkdir -p /var/tmp/vp-seedlogs
-cd /verif && ./vcheck "$ID" "$TIER" > /var/tmp/vp-seedlogs/$NAME.$ID.log 2>&1; rc=$?
-git -C /repo checkout -- .
+cd $HERE && ./vcheck "$ID" "$TIER" > /var/tmp/vp-seedlogs/$NAME.$ID.log 2>&1; rc=$?
+git -C $REPO checkout -- .
 grep -E '^(VIOLATION|  detail|OK|INFRA)' /var/tmp/vp-seedlogs/$NAME.$ID.log | head -4
 echo "vcheck $ID $TIER on $NAME rc=$rc"
-if [ "$rc" = 1 ]; then rm -rf "$D/replays"; [ -d /verif/replays/$ID ] && mv /verif/replays/$ID "$D/replays"; fi
-python3 - "$NAME" "$ID" "$TIER" "$rc" <<'PY'
+if [ "$rc" = 1 ]; then rm -rf "$D/replays"; [ -d $HERE/replays/$ID ] && mv $HERE/replays/$ID "$D/replays"; fi
+git -C $HERE checkout -q -- replays evidence 2>/dev/null
+python3 - "$NAME" "$ID" "$TIER" "$rc" "$HERE" "${SEED_NOTE:-after strengthening the check}" <<'PY'
 import json,sys,os
-NAME,ID,TIER,rc=sys.argv[1:]
-p='/verif/seeded/%s/meta.json'%NAME
+NAME,ID,TIER,rc,HERE,NOTE=sys.argv[1:]
+p='%s/seeded/%s/meta.json'%(HERE,NAME)
 d=json.load(open(p))
 first=[l for l in open('/var/tmp/vp-seedlogs/%s.%s.log'%(NAME,ID)) if l.startswith(('VIOLATION','  detail'))][:2]
-d.setdefault('runs',[]).append({"cmd":"./vcheck %s %s"%(ID,TIER),"exit":int(rc),"detected":int(rc)==1,"first_report":"".join(first).strip(),"note":"after strengthening the check"})
+d.setdefault('runs',[]).append({"cmd":"./vcheck %s %s"%(ID,TIER),"exit":int(rc),"detected":int(rc)==1,"first_report":"".join(first).strip(),"note":NOTE})
 json.dump(d,open(p,'w'),indent=1)
 PY
